@@ -56,7 +56,7 @@ def report_disagreements(chk, cases, impl, mm, what):
         e, d = cases[i]
         chk.violation({"kind": "eval", "expr": evalgen.render(e), "doc": d, "impl": impl[i].decode("utf-8", "replace"),
                        "model": mm[i].decode("utf-8", "replace") if isinstance(mm[i], bytes) else repr(mm[i])},
-                      True, "%s: the implementation departs from the reference semantics (Model/Eval.v, about which the property's theorems are proved) on %s" % (what, evalgen.render(e)))
+                      False, "%s: the implementation departs from the reference semantics (Model/Eval.v, about which the property's theorems are proved) on %s; no oracle independent of the model found the property itself failing" % (what, evalgen.render(e)))
 
 
 def replay_eval(rp):
